@@ -66,13 +66,13 @@ pub fn spec_json(s: &Spec) -> Value {
     match s {
         Spec::Natural { delay } => json!({"engine": "natural", "delay": delay.map(|d| vec![d.0, d.1])}),
         Spec::Free { delay } => json!({"engine": "free", "delay": delay.map(|d| vec![d.0, d.1])}),
-        Spec::Controlled { strategy, early_poll_at } => {
+        Spec::Controlled { strategy, early_poll_at, eager_recv } => {
             let st = match strategy {
                 Strategy::Dfs(p) => json!({"dfs": p.iter().map(|(c, n)| vec![*c, *n]).collect::<Vec<_>>()}),
                 Strategy::Random(s) => json!({ "random": s }),
                 Strategy::Fixed(f) => json!({"fixed": format!("{f:?}")}),
             };
-            json!({"engine": "controlled", "strategy": st, "early_poll_at": early_poll_at})
+            json!({"engine": "controlled", "strategy": st, "early_poll_at": early_poll_at, "eager_recv": eager_recv})
         }
     }
 }
@@ -94,7 +94,7 @@ pub fn spec_from_json(v: &Value) -> Spec {
                     _ => FixedOrder::RunFirstLifo,
                 })
             };
-            Spec::Controlled { strategy, early_poll_at: v["early_poll_at"].as_u64().map(|x| x as u32) }
+            Spec::Controlled { strategy, early_poll_at: v["early_poll_at"].as_u64().map(|x| x as u32), eager_recv: v["eager_recv"].as_bool().unwrap_or(false) }
         }
         _ => Spec::Free { delay },
     }
